@@ -82,7 +82,9 @@ VARIANTS = [
     ("C04-b7", "C04", QCMP, "    if zdt.is_date_spec(value):\n        return PropertyValueType.DATE\n    elif all(ch.isdigit() for ch in value):\n        return PropertyValueType.INTEGER", "    if all(ch.isdigit() for ch in value):\n        return PropertyValueType.INTEGER\n    elif zdt.is_date_spec(value):\n        return PropertyValueType.DATE", "bad", "C04.R4"),
     # ---------------------------------------------------------------- C05
     ("C05-b1", "C05", PCV, '            "modify_date": note.modify_date,\n', "", "bad", "C05.R1"),
-    ("C05-b2", "C05", HD, 'end_idx = note.line_no + len(note.body.split("\\n")) - 1', 'end_idx = note.line_no + len(note.body.split("\\n"))', "bad", "C05.R3"),
+    # (end_idx one larger in BOTH the middle slice and the tail is behaviour-preserving: it was a wrong "bad" variant of the structural rule)
+    ("C05-b2", "C05", HD, "zlines = zlines[:start_idx] + new_note_lines + zlines[end_idx:]", "zlines = zlines[:start_idx] + new_note_lines + zlines[end_idx + 1 :]", "bad", "C05.R3"),
+    ("C05-g2", "C05", HD, 'end_idx = note.line_no + len(note.body.split("\\n")) - 1', 'end_idx = note.line_no + len(note.body.split("\\n"))', "good", ""),
     ("C05-b3", "C05", RP, "        _add_zids(self._zdir, page)\n        sql_page = self._page_converter.from_entity(page)", "        sql_page = self._page_converter.from_entity(page)\n        _add_zids(self._zdir, page)", "bad", "C05.R2"),
     ("C05-b4", "C05", PCV, "            links=[link.name for link in sql_note.links],\n", "", "bad", "C05.R1"),
     # ---------------------------------------------------------------- C06
